@@ -479,6 +479,33 @@ theorem version_atom10 (o : Ops) :
     verOf (mrun o {} evAtom10Strict) = some (S "atom10") ∧ verOf (mrun o {} evAtom10Loose) = some (S "atom10") := by
   simp only [verOf_vVer, vv_atom10s, vv_atom10l, and_self]
 
+/-- …and that holds for EVERY prefix the document binds the Atom 1.0 / RSS 1.0 namespace to (a producer is free to write
+`<a:feed xmlns:a="http://www.w3.org/2005/Atom">`), in any letter case of the URI the tables recognise: the version decision
+of `track_namespace` does not look at the prefix. -/
+def verPick (isDefault : Bool) (lower0 : Str) : Str :=
+  if isDefault && lower0 == S "http://my.netscape.com/rdf/simple/0.9/" then S "rss090"
+  else if lower0 == S "http://purl.org/rss/1.0/" then S "rss10"
+  else if lower0 == S "http://www.w3.org/2005/atom" then S "atom10"
+  else []
+
+theorem trackV_version_fresh (p : Option Str) (nm : List (Option Str × Str)) (u : Str) :
+    (trackV ⟨[], nm⟩ p u).version = verPick p.isNone (lowerS u) := by
+  unfold trackV verPick; simp only []; split <;> rfl
+
+theorem verPick_atom10 : ∀ b, verPick b (lowerS (S "http://www.w3.org/2005/Atom")) = S "atom10" := by decide +kernel
+theorem verPick_atom10_lower : ∀ b, verPick b (lowerS (S "http://www.w3.org/2005/atom")) = S "atom10" := by decide +kernel
+theorem verPick_atom10_upper : ∀ b, verPick b (lowerS (S "HTTP://WWW.W3.ORG/2005/ATOM")) = S "atom10" := by decide +kernel
+theorem verPick_rss10 : ∀ b, verPick b (lowerS (S "http://purl.org/rss/1.0/")) = S "rss10" := by decide +kernel
+
+theorem track_version_any_prefix (p : Option Str) (nm : List (Option Str × Str)) :
+    (trackV ⟨[], nm⟩ p (S "http://www.w3.org/2005/Atom")).version = S "atom10" ∧
+    (trackV ⟨[], nm⟩ p (S "HTTP://WWW.W3.ORG/2005/ATOM")).version = S "atom10" ∧
+    (trackV ⟨[], nm⟩ p (S "http://purl.org/rss/1.0/")).version = S "rss10" := by
+  simp only [trackV_version_fresh, verPick_atom10, verPick_atom10_upper, verPick_rss10, and_self]
+
+/-- non-vacuity: a concrete prefixed root -/
+example : vVer false [.ns (some (S "a")) (S "http://www.w3.org/2005/Atom"), .start (S "a:feed") []] = some (S "atom10") := by decide +kernel
+
 /-- Atom 0.3: the `version` attribute decides (its namespace sets no version) -/
 theorem version_atom03 (o : Ops) :
     verOf (mrun o {} evAtom03Strict) = some (S "atom03") ∧ verOf (mrun o {} evAtom03Loose) = some (S "atom03") := by
